@@ -26,6 +26,7 @@ type ReqCase struct {
 	Kind           string   `json:"kind"` // l1
 	Src            Src      `json:"src"`
 	NonTarget      []string `json:"non_target_modules,omitempty"`
+	Paths          []string `json:"target_paths,omitempty"` // directories (image-root relative) that are targeted; empty = everything
 	Strategy       string   `json:"strategy"` // directory | all
 	IncludeImports bool     `json:"include_imports"`
 	IncludeWKT     bool     `json:"include_wkt"`
@@ -40,6 +41,9 @@ type expectation struct {
 	includeWKT     bool
 	param          string
 	files          []fileView // the image the requests are derived from, in image order
+	// partial: the run was aborted (a failing plugin cancels the invocations still in flight), so the
+	// recorded requests may be a subset; only per-request properties and "at most once" are checked
+	partial bool
 }
 
 func isWKT(path string) bool { return datawkt.Exists(path) }
@@ -216,12 +220,13 @@ func checkRequests(res *refResolver, exp expectation, reqs []*pluginpb.CodeGener
 			want[f.Path] = true
 		}
 	}
-	switch exp.strategy {
-	case "all":
+	switch {
+	case exp.partial:
+	case exp.strategy == "all":
 		if len(reqs) != 1 {
 			return "request-count", fmt.Sprintf("strategy all: %d requests, expected 1", len(reqs)), stats
 		}
-	case "directory":
+	case exp.strategy == "directory":
 		if len(reqs) != len(targetDirs) {
 			return "request-count", fmt.Sprintf("strategy directory: %d requests for %d directories with target files %v", len(reqs), len(targetDirs), protogen.SortedKeys(targetDirs)), stats
 		}
@@ -366,7 +371,7 @@ func checkRequests(res *refResolver, exp expectation, reqs []*pluginpb.CodeGener
 	if len(twice) > 0 {
 		return "generated-twice", fmt.Sprintf("%s: %v are files to generate in more than one request", cfg, twice), stats
 	}
-	if len(missing) > 0 {
+	if len(missing) > 0 && !exp.partial {
 		return "not-generated", fmt.Sprintf("%s: %v are never a file to generate (expected %v)", cfg, missing, protogen.SortedKeys(want)), stats
 	}
 	if len(extra) > 0 {
@@ -414,8 +419,28 @@ func checkRequests(res *refResolver, exp expectation, reqs []*pluginpb.CodeGener
 
 func (c *ReqCase) build(ctx context.Context) (bufimage.Image, error) {
 	specs := map[string]bufx.ModuleSpec{}
+	non := map[string]bool{}
 	for _, d := range c.NonTarget {
 		specs[d] = bufx.ModuleSpec{Target: false}
+		non[d] = true
+	}
+	if len(c.Paths) > 0 {
+		for _, m := range c.Src.Mods {
+			if non[m.Dir] {
+				continue
+			}
+			spec := bufx.ModuleSpec{}
+			for _, p := range c.Paths {
+				for f := range c.Src.Files[m.Dir] {
+					if f == p || strings.HasPrefix(f, p+"/") {
+						spec.Target = true
+						spec.TargetPaths = append(spec.TargetPaths, p)
+						break
+					}
+				}
+			}
+			specs[m.Dir] = spec
+		}
 	}
 	return c.Src.buildSpecs(ctx, specs)
 }
@@ -495,7 +520,7 @@ func runL1(ctx context.Context, t fataler, r *evid.Recorder, c *ReqCase) {
 			return
 		}
 	}
-	classifyL1(r, "l1", c.Strategy, c.IncludeImports, c.IncludeWKT, views, stats, c.Src.canon()+fmt.Sprint(c.NonTarget))
+	classifyL1(r, "l1", c.Strategy, c.IncludeImports, c.IncludeWKT, views, stats, c.Src.canon()+fmt.Sprint(c.NonTarget, c.Paths))
 }
 
 func classifyL1(r *evid.Recorder, kind, strategy string, includeImports, includeWKT bool, views []fileView, stats map[string]int, canon string) {
@@ -553,11 +578,33 @@ func genSrc(t *rapid.T, thorough bool) Src {
 func TestRequests(t *testing.T) {
 	r := evid.R()
 	ctx := context.Background()
-	r.Check(t, r.Scale(1600, 60000), 1, func(t *rapid.T) {
+	r.Check(t, r.Scale(1000, 40000), 1, func(t *rapid.T) {
 		c := &ReqCase{Kind: "l1", Src: genSrc(t, r.Thorough())}
 		for i, m := range c.Src.Mods {
 			if i > 0 && rapid.IntRange(0, 1).Draw(t, "nontarget") == 0 {
 				c.NonTarget = append(c.NonTarget, m.Dir)
+			}
+		}
+		if rapid.Bool().Draw(t, "use-paths") {
+			// only some directories are targets; the others can only be imports
+			dirs := map[string]bool{}
+			for _, m := range c.Src.Mods {
+				isNon := false
+				for _, d := range c.NonTarget {
+					isNon = isNon || d == m.Dir
+				}
+				if isNon {
+					continue
+				}
+				for f := range c.Src.Files[m.Dir] {
+					dirs[dirOf(f)] = true
+				}
+			}
+			ds := protogen.SortedKeys(dirs)
+			if len(ds) >= 2 {
+				perm := rapid.Permutation(ds).Draw(t, "pathperm")
+				c.Paths = append([]string{}, perm[:rapid.IntRange(1, len(ds)-1).Draw(t, "npaths")]...)
+				sort.Strings(c.Paths)
 			}
 		}
 		c.Strategy = []string{"directory", "directory", "all"}[rapid.IntRange(0, 2).Draw(t, "strategy")]
